@@ -92,10 +92,7 @@ def classify(case):
         return None
     n = o.get("num_variants")
     if o.get("enumerated") is False:
-        # the reported count is not in 1..1000 although more than 1000 expansions exist: the int count wrapped
-        if n is not None and n <= 1000 and (o.get("raw_count_capped_at_1001") or 0) > 1000:
-            return "variant-count-wraps-int64"
-        return None
+        return None          # an accepted pattern whose reported count is not in 1..1000 is never a known finding
     if n != len(o.get("raw") or []) or n != len(o.get("variants") or []):
         return None          # a count failure is never a known finding
     bad = [p for p in (o.get("paths") or []) if p["orig"] != any(p["var"] or [])]
@@ -128,14 +125,14 @@ SPEC = dict(
           "with groups or paths / at least 2 variants."),
     exhaustive=dict(quick=True, thorough=True),
     trusted_base=[
-        "hand-written model coq/models/Patterns.v of interfaces/prompting/patterns (scan, parseSeq/parseAlt as a shift-reduce pass, optimize, nodeEqual, NumVariants in int64, Render/NextVariant enumeration order, prepareVariantForParsing, parsePatternVariant, Compare, HighestPrecedencePattern), tied by the differential run (harness/overlay/interfaces/prompting/patterns/zz_verif_c37_test.go)",
+        "hand-written model coq/models/Patterns.v of interfaces/prompting/patterns (scan, parseSeq/parseAlt as a shift-reduce pass, optimize, nodeEqual, NumVariants in saturating int64, Render/NextVariant enumeration order, prepareVariantForParsing, parsePatternVariant, Compare, HighestPrecedencePattern), tied by the differential run (harness/overlay/interfaces/prompting/patterns/zz_verif_c37_test.go)",
         "doublestar.Match (third party) is NOT modelled: the match part of the property is evaluated on the implementation only (monitor), and is a Section variable `gm` in the theorems",
         "regexp submatching is NOT modelled: the driver reads the submatches of each variant's regex and the model's Compare takes them as input; the precedence theorems hold for an arbitrary decomposition",
         "patterns and paths are ASCII (the Go code iterates runes; the literal U+2051 escaping of prepareVariantForParsing is not exercised)",
     ],
     assumptions=[
         "PARTIAL: `pattern matches path iff some rendered variant matches` is proved only relative to a hypothesis on doublestar (groups = try every alternative) and for normal-form patterns; unconditionally it is monitored on the implementation. Count = enumeration, limit, rejection of malformed patterns, Compare sign-antisymmetry/transitivity and order independence of HighestPrecedencePattern are proved in full (unbounded).",
-        "GUARD (finding, key variant-count-wraps-int64): the limit theorem assumes the number of expansions is below 2^63",
+        "the count overflow (former key variant-count-wraps-int64) is repaired in /repo commit 1160e46: NumVariants saturates at math.MaxInt; the model follows, the limit theorem is unguarded and the 64-group pattern is a regression case (rejected)",
         "GUARD (finding 12, keys render-rewrites-expansion / star-before-group / doublestar-slash-before-group): the match theorem assumes normal form and expansion-like group handling",
         "order independence assumes Compare returns 0 only between equal variants (monitored on every generated pair)",
         "paths are clean (no `//`), as the callers pass them",
